@@ -1305,6 +1305,7 @@ void flatcc_json_printer_struct_as_nested_root(flatcc_json_printer_t *ctx,
     }
     buf = (const uoffset_t *)((size_t)buf + __flatbuffers_uoffset_read_from_pe(buf));
     bufsiz = __flatbuffers_uoffset_read_from_pe(buf);
+    ++buf;
     if (!accept_header(ctx, buf, bufsiz, fid)) {
         return;
     }
